@@ -9,7 +9,7 @@ and the lock is released only after the store.
 import re
 
 from ..mir import deep_strip, tstr, strip_generics, canon, subterms, is_call
-from .. import effects, witness
+from .. import effects, witness, derives
 from ..pat import P, K, V, C, F, AGG, OKP, BIN, CLO, TUP, FN, ANY, ALT, match, unref
 from . import c10
 
@@ -157,8 +157,8 @@ def run(ctx, progs):
         ts = [prog.types[x["ty"]]["s"] for x in f]
         ok = len(f) == 1 and re.fullmatch(r"std::sync::Arc<\((\w+::)*arc_swap::ArcSwapAny<std::sync::Arc<M>>, std::sync::Mutex<\(\)>\)>", ts[0]) is not None
         ctx.ob("R11.4.shared_pair", ATOM, ok, f"{a['file']}:{a['line']}", f"fields {ts}: all clones must share one (ArcSwap, Mutex) pair through an Arc")
-        cl = prog.adt_impls(ATOM, "std::clone::Clone")
-        ctx.ob("R11.4.atomic_clone_derived", ATOM, len(cl) == 1 and cl[0]["derived"], "", "GuestMemoryAtomic: derived Clone (clones the Arc, shares the pair)")
+        okc, whyc = derives.like_derive(prog, ATOM, "std::clone::Clone")
+        ctx.ob("R11.4.atomic_clone_derived", ATOM, okc, "", f"GuestMemoryAtomic: derived Clone or its field-wise equivalent (clones the Arc, shares the pair): {whyc}")
         a = prog.adts[LOADG]
         ts = [prog.types[x["ty"]]["s"] for x in a["variants"][0]["fields"]]
         ctx.ob("R11.4.guard_holds_arc", LOADG, (len(ts) == 1 and re.fullmatch(r"(\w+::)*arc_swap::Guard<std::sync::Arc<M>>", ts[0]) is not None), f"{a['file']}:{a['line']}", f"fields {ts}: the snapshot owns a Guard<Arc<M>>")
